@@ -355,17 +355,28 @@ impl Optimizer {
                         let refs_left = pred_cols.iter().any(|&c| c < left_cols);
                         let refs_right = pred_cols.iter().any(|&c| c >= left_cols);
 
-                        // After the left block the join output holds only the right
-                        // side's NON-KEY columns, so a right-side index is mapped through
-                        // that column list (not just shifted by the left width).
-                        let right_cols = Self::right_output_columns(&right, &right_keys);
-                        // ...and only when the inputs' schemas account for the join's own
-                        // output schema: an empty Union (e.g. an eliminated always-false
-                        // branch in front of a Union) reports no columns at all.
-                        let right_in_range = left_cols + right_cols.len() == output_schema.len()
-                            && pred_cols
-                                .iter()
-                                .all(|&c| c >= left_cols && c - left_cols < right_cols.len());
+                        // Which right column does a join-output index behind the left
+                        // block denote? A join emits the left columns followed by the
+                        // right side's NON-KEY columns, and its output_schema normally
+                        // says so: then the index is mapped through that column list.
+                        // A join whose output_schema lists EVERY right column is indexed
+                        // by plain concatenation: then the index is only shifted by the
+                        // left width. Any other schema width: leave the filter in place.
+                        let right_width = right.output_schema().len();
+                        let right_cols: Vec<usize> =
+                            if left_cols + right_width == output_schema.len() {
+                                (0..right_width).collect()
+                            } else if left_cols
+                                + Self::right_output_columns(&right, &right_keys).len()
+                                == output_schema.len()
+                            {
+                                Self::right_output_columns(&right, &right_keys)
+                            } else {
+                                Vec::new()
+                            };
+                        let right_in_range = pred_cols
+                            .iter()
+                            .all(|&c| c >= left_cols && c - left_cols < right_cols.len());
 
                         if refs_left && !refs_right {
                             // Predicate only references left side - push down to left
@@ -1733,22 +1744,23 @@ mod tests {
                 }),
                 left_keys: vec![1],
                 right_keys: vec![0],
-                // join output = left columns + right NON-KEY columns
-                output_schema: vec!["x".to_string(), "y".to_string(), "z".to_string()],
+                output_schema: vec![
+                    "x".to_string(),
+                    "y".to_string(),
+                    "y".to_string(),
+                    "z".to_string(),
+                ],
             }),
-            predicate: Predicate::ColumnLtConst(2, 100), // z < 100, only references right side (col 2)
+            predicate: Predicate::ColumnLtConst(3, 100), // z < 100, only references right side (col 3)
         };
 
         let optimized = optimizer.pushdown_filters(ir);
 
-        // Should push filter down to right side of join, onto s.z (column 1 of s)
+        // Should push filter down to right side of join
         match optimized {
-            IRNode::Join { right, .. } => match *right {
-                IRNode::Filter { predicate, .. } => {
-                    assert_eq!(predicate, Predicate::ColumnLtConst(1, 100));
-                }
-                _ => panic!("Expected Filter on right"),
-            },
+            IRNode::Join { right, .. } => {
+                assert!(matches!(*right, IRNode::Filter { .. }));
+            }
             _ => panic!("Expected Join with Filter on right"),
         }
     }
